@@ -10,4 +10,6 @@ INVARIANT P_C19
 INVARIANT P_C04
 INVARIANT P_C15
 INVARIANT P_C15_Sort
+INVARIANT P_C02
+INVARIANT P_Type
 CHECK_DEADLOCK FALSE
